@@ -50,15 +50,19 @@ func catalogue() []fault {
 			out = append(out, fault{kind: "modify", transport: tm[0], mode: tm[1], cut: cut})
 		}
 	}
-	for _, n := range []int{1, 2, 5, 40, 200} {
+	for _, n := range []int{2, 5, 40, 200} {
 		cuts := map[int]bool{}
 		for k := 1; k <= n && k <= 6; k++ {
 			cuts[k] = true
 		}
-		if n > 1 {
-			cuts[n-1] = true
-		}
+		cuts[n-1] = true
 		cuts[n] = true
+		// Get(ALL) emits the tables one after the other (a fifth of the entries each): cut inside each
+		for sec := 0; sec < 5; sec++ {
+			if k := sec*n/5 + n/10 + 1; k >= 1 && k <= n {
+				cuts[k] = true
+			}
+		}
 		for k := range cuts {
 			for _, tm := range [][2]string{{"direct", "sendfail"}, {"grpc", "cancel"}, {"grpc", "kill"}} {
 				out = append(out, fault{kind: "get", transport: tm[0], mode: tm[1], cut: k, entries: n})
@@ -161,7 +165,7 @@ func TestCheck(t *testing.T) {
 		}
 	})
 	run.Assume("a message the client sent but whose answer it did not read may or may not have been processed when the client is cancelled or its transport killed over gRPC (any prefix of the unacknowledged messages is accepted); after a half-close, and on direct streams, everything sent was received and must have been processed")
-	run.Finish("fault enumeration: a 5-message Modify script (params, election, three batches incl. a held operation that resolves) cut after each of its 14 send/read steps x {direct: half-close, cancel; gRPC: half-close, cancel, transport kill}; a Get over an instance holding 1/2/5/40/200 entries cut after 1..6, n-1 and n responses x {direct: Send fails; gRPC: cancel, transport kill}; plus seeded sequences of 2-4 such faults on one server. After every fault: contents and highest id/primary vs the model (hooks), then a bounded-progress probe - a new session negotiates, announces max+1, adds a next-hop, reads it back with Get, flushes - each step under a watchdog; a watchdog firing is a violation only if two goroutine dumps prove the server permanently blocked. Distinct = by fault case", 50, false)
+	run.Finish("fault enumeration: a 5-message Modify script (params, election, three batches incl. a held operation that resolves) cut after each of its 14 send/read steps x {direct: half-close, cancel; gRPC: half-close, cancel, transport kill}; a Get(ALL) over an instance holding 2/5/40/200 entries spread over all five tables, cut after 1..6, n-1, n and inside every table's section x {direct: Send fails; gRPC: cancel, transport kill}; plus seeded sequences of 2-4 such faults on one server. After every fault: contents and highest id/primary vs the model (hooks), then a bounded-progress probe - a new session negotiates, announces max+1, adds a next-hop, reads it back with Get, flushes - each step under a watchdog; a watchdog firing is a violation only if two goroutine dumps prove the server permanently blocked. Distinct = by fault case", 50, false)
 }
 
 // ---------------------------------------------------------------- child side
@@ -379,18 +383,42 @@ func (w *world) modifyFault(f fault) ([]candidate, string) {
 	return out, ""
 }
 
-// getFault floods one NI, then abandons a Get part-way.
+// getFault floods one NI with entries of all five tables, then abandons a Get(ALL) part-way.
 func (w *world) getFault(f fault) string {
 	ni := "VRF2"
-	for k := 0; k < f.entries; k++ {
-		s := mkNH(w.nextOp, ni, uint64(1000+k))
-		w.nextOp++
-		if _, _, err := mon.Apply(w.srv.VerifRIB(), s); err != nil {
-			return "HARNESS: " + err.Error()
+	add := func(s gen.OpSpec) string {
+		if oks, fails, err := mon.Apply(w.srv.VerifRIB(), s); err != nil || len(fails) > 0 || len(oks) == 0 {
+			return fmt.Sprintf("HARNESS: cannot install %s: %v %v %v", s, oks, fails, err)
 		}
 		w.m.Predict(s)
+		return ""
 	}
-	req := &spb.GetRequest{NetworkInstance: &spb.GetRequest_Name{Name: ni}, Aft: spb.AFTType_NEXTHOP}
+	id := func() uint64 { w.nextOp++; return w.nextOp }
+	if e := add(mkNH(id(), ni, 900)); e != "" {
+		return e
+	}
+	if e := add(mkNHG(id(), ni, 900, 900)); e != "" {
+		return e
+	}
+	for k := 2; k < f.entries; k++ {
+		var s gen.OpSpec
+		switch k % 5 {
+		case 0:
+			s = mkV4(id(), ni, fmt.Sprintf("10.%d.%d.0/24", k/250, k%250), 900, spb.AFTOperation_ADD)
+		case 1:
+			s = mkV6(id(), ni, fmt.Sprintf("2001:db8:%x::/48", k), 900)
+		case 2:
+			s = gen.OpSpec{NI: ni, Op: &spb.AFTOperation{Id: id(), NetworkInstance: ni, Op: spb.AFTOperation_ADD, Entry: &spb.AFTOperation_Mpls{Mpls: &aftpb.Afts_LabelEntryKey{Label: &aftpb.Afts_LabelEntryKey_LabelUint64{LabelUint64: uint64(1000 + k)}, LabelEntry: &aftpb.Afts_LabelEntry{NextHopGroup: gen.U(900)}}}}}
+		case 3:
+			s = mkNHG(id(), ni, uint64(1000+k), 900)
+		default:
+			s = mkNH(id(), ni, uint64(1000+k))
+		}
+		if e := add(s); e != "" {
+			return e
+		}
+	}
+	req := &spb.GetRequest{NetworkInstance: &spb.GetRequest_Name{Name: ni}, Aft: spb.AFTType_ALL}
 	var got []*spb.GetResponse
 	var err, wd error
 	switch f.transport {
